@@ -47,8 +47,12 @@ NRowsClass(s, e) == IF IsNumber(s) /\ IsNumber(e) /\ Rank(e) > Rank(s) THEN "som
 \*   symlink-to-dir         link to a directory
 \*   existing-dotdot        the existing file spelled sub/../exist.json
 \*   absent-in-subdir       a new name inside the existing directory
+\*   absent-trailing-slash  a new name followed by '/': nothing exists there, and nothing can be opened there
+\*   symlink-loop           a link that points to itself
+\*   dangling-into-missing-dir  a link whose target lies in a directory that does not exist
 FileClasses == {"none", "absent", "existing", "dir", "symlink-to-file", "dangling-symlink", "parent-missing", "empty-string",
-                "symlink-rel-in-subdir", "symlink-up", "symlink-abs-to-file", "symlink-to-dir", "existing-dotdot", "absent-in-subdir"}
+                "symlink-rel-in-subdir", "symlink-up", "symlink-abs-to-file", "symlink-to-dir", "existing-dotdot", "absent-in-subdir",
+                "absent-trailing-slash", "symlink-loop", "dangling-into-missing-dir"}
 ExistingClasses == {"existing", "dir", "symlink-to-file", "symlink-rel-in-subdir", "symlink-up", "symlink-abs-to-file",
                     "symlink-to-dir", "existing-dotdot"}
 CreatableClasses == {"absent", "dangling-symlink", "absent-in-subdir"}
